@@ -177,8 +177,20 @@ def extract(tree):
     # ---- select
     ch = corefn_body(src, "cfun_channel_choice")
     loops = [m.start() for m in re.finditer(r"for\s*\(\s*int32_t\s+i\s*=\s*0\s*;\s*i\s*<\s*argc\s*;\s*i\+\+\s*\)", ch)]
+    # an optional validation pass (one more loop over the clauses, before the first lock): it may only type-check the
+    # clauses - janet_getchannel on the channel of each clause, raising on an ill-typed one - and touch no channel state
+    c["choiceValidatesFirst"] = False
+    if len(loops) == 3:
+        val = ch[loops[0]:loops[1]]
+        m = re.match(r"for\s*\([^)]*\)\s*\{\s*" + _ws("if (janet_indexed_view(argv[i], &data, &len) && len == 2) { janet_getchannel(data, 0); } "
+                                                   "else { janet_getchannel(argv, i); } }"), val, re.S)
+        if not m or re.search(r"janet_chan_lock|janet_chan_unlock|push_with_lock|pop_with_lock|janet_q_|->items|->limit|->closed|return|janet_await", val[:m.end()]) \
+                or re.search(r"\S", re.sub(r"\s+", "", val[m.end():])):
+            raise ExtractError("ev.c: cfun_channel_choice: the loop before the immediate pass is not a pure validation pass")
+        c["choiceValidatesFirst"] = True
+        loops = loops[1:]
     if len(loops) != 2:
-        raise ExtractError("ev.c: cfun_channel_choice: expected two loops over the clauses, found %d" % len(loops))
+        raise ExtractError("ev.c: cfun_channel_choice: expected [validation pass,] immediate pass and registration pass over the clauses, found %d loops" % len(loops))
     first, second = ch[loops[0]:loops[1]], ch[loops[1]:]
     m = _need(r"if\s*\(\s*janet_q_count\s*\(\s*&chan->items\s*\)\s*(<=|<)\s*chan->limit\s*(\|\|\s*janet_channel_has_reader\s*\(\s*chan\s*\)\s*)?\)\s*\{\s*"
               + _ws("janet_channel_push_with_lock(chan, data[1], 1); chan_unlock_args(argv, i); return make_write_result(chan);"),
